@@ -3,8 +3,10 @@ package props
 import (
 	"bytes"
 	"fmt"
+	"encoding/json"
 	"io"
 	"os"
+	"os/exec"
 	"path/filepath"
 	"runtime/debug"
 	"strings"
@@ -91,7 +93,66 @@ func firstLibraryFrame(stack string) string {
 	return ""
 }
 
+// checkC08InChild runs the case in a process of its own: unbounded recursion (a cyclic style chain followed without a
+// guard) ends in a fatal stack overflow that recover() cannot intercept.
+func checkC08InChild(c c08Case) string {
+	dir, err := os.MkdirTemp("", "c08child")
+	if err != nil {
+		return ""
+	}
+	defer os.RemoveAll(dir)
+	b, _ := json.Marshal(c)
+	p := filepath.Join(dir, "case.json")
+	if err := os.WriteFile(p, b, 0o644); err != nil {
+		return ""
+	}
+	cmd := exec.Command(os.Args[0], "-test.run", "^TestC08Child$", "-test.count", "1", "-test.v")
+	cmd.Env = append(os.Environ(), "VERIF_C08_CASE="+p, "VERIF_FRAG=", "VERIF_REPLAY_OUT=")
+	out, _ := cmd.CombinedOutput()
+	if i := bytes.Index(out, []byte("C08CHILD-RESULT:")); i >= 0 {
+		rest := out[i+len("C08CHILD-RESULT:"):]
+		if j := bytes.IndexByte(rest, '\n'); j >= 0 {
+			rest = rest[:j]
+		}
+		var msg string
+		if json.Unmarshal(rest, &msg) == nil {
+			return msg
+		}
+	}
+	// no result line: the process died
+	reason := "no output"
+	for _, l := range strings.Split(string(out), "\n") {
+		if strings.HasPrefix(l, "fatal error:") || strings.HasPrefix(l, "runtime: goroutine stack exceeds") {
+			reason = l
+			break
+		}
+	}
+	return fmt.Sprintf("the %s writer brought the whole process down (not even a recoverable panic): %s", c.Writer, reason)
+}
+
+// TestC08Child is the body of that process.
+func TestC08Child(t *testing.T) {
+	p := os.Getenv("VERIF_C08_CASE")
+	if p == "" {
+		t.Skip("not a child")
+	}
+	b, err := os.ReadFile(p)
+	if err != nil {
+		t.Fatal(err)
+	}
+	var c c08Case
+	if err := json.Unmarshal(b, &c); err != nil {
+		t.Fatal(err)
+	}
+	debug.SetMaxStack(32 << 20) // fail fast
+	msg, _ := json.Marshal(checkC08(c))
+	fmt.Printf("\nC08CHILD-RESULT:%s\n", msg)
+}
+
 func checkC08(c c08Case) string {
+	if c.Writer != "" && c.Spec != nil && c.Spec.hasParentCycle() && os.Getenv("VERIF_C08_CASE") == "" {
+		return checkC08InChild(c)
+	}
 	var f func()
 	size := len(c.Doc)
 	switch {
@@ -147,11 +208,16 @@ func checkC08(c c08Case) string {
 
 var hostileLines = map[string][]string{
 	"srt": {"00:00:01,000 -->", "--> 00:00:02,000", "-->", "00:00:01,000 --> x", "a --> b", "99999999999999999999:00:00,000 --> 00:00:01,000", "1:2 --> 3:4", ":: --> ::", "00:00:01,0000 --> 00:00:02,000",
-		"-00:00:01,000 --> 00:00:02,000", "00:00:01,000 --> 00:00:02,000 --> 00:00:03,000", "<font color=>", "<b", "</", "&", "\xff\xfe", "<font color=\"", "1", ""},
+		"-00:00:01,000 --> 00:00:02,000", "00:00:01,000 --> 00:00:02,000 --> 00:00:03,000", "<font color=>", "<b", "</", "&", "\xff\xfe", "<font color=\"", "1", "",
+		// every inline token of the format cut short at each position
+		"{\\an8", "{\\an", "{\\a", "{\\", "{", "x{\\an8", "{\\an8<i>}", "{\\an0}", "{\\an8}", "&amp", "&#", "&#x", "&#;", "&nbsp", "<font", "<font ", "<font color", "<font color=\"#ff", "<i", "</i", "<i>{\\an"},
 	"vtt": {"00:00:01.000 -->", "--> 00:00:02.000", "-->", "00:00:01.000 --> x", "WEBVTT", "Region: id", "Region: =", "Region: id=a lines=x", "Region: ", "X-TIMESTAMP-MAP=", "X-TIMESTAMP-MAP", "X-TIMESTAMP-MAP=LOCAL:x,MPEGTS:y",
-		"X-TIMESTAMP-MAP=LOCAL", "STYLE", "NOTE ", "NOTE", "00:00:01.000 --> 00:00:02.000 region:none", "00:00:01.000 --> 00:00:02.000 align", "00:00:01.000 --> 00:00:02.000 :", "<v>", "<v ", "</v></v></c>", "<c.>", "<.>", "< >", "<00:00:01.000>", "<99:99:99.999>x", "<>", "\xff"},
+		"X-TIMESTAMP-MAP=LOCAL", "STYLE", "NOTE ", "NOTE", "00:00:01.000 --> 00:00:02.000 region:none", "00:00:01.000 --> 00:00:02.000 align", "00:00:01.000 --> 00:00:02.000 :", "<v>", "<v ", "</v></v></c>", "<c.>", "<.>", "< >", "<00:00:01.000>", "<99:99:99.999>x", "<>", "\xff",
+		"<c.a", "<c.", "<v Bob", "<v", "<00:00:01", "<00:", "&amp", "&nb", "&#", "{\\an8", "</", "</c", "<ruby><rt", "x<", "x<v A>y</v", "<lang en"},
 	"ssa": {"Format:", "Format: ", "Format: Text", "Dialogue:", "Dialogue: ", "Dialogue: ,,,,,,,,,", "Style:", "Style: a", "Style: a,b,c,d,e,f,g,h,i,j,k,l,m,n,o,p,q,r,s,t,u,v,w,x,y,z", "[Events]", "[V4 Styles]", "[V4+ Styles]", "[Script Info]", "[", "]", "[]",
-		"PlayResX: x", "Timer: ,", ":", "::", "; ", "Dialogue: Marked=0,0:00:00.00,x,,,0,0,0,,t", "Dialogue: 0,9999999999999999999:00:00.00,0:00:01.00,,,0,0,0,,t", "Dialogue: 0,0:00:00.00,0:00:01.00,*,,0,0,0,,{", "Dialogue: 0,0:00:00.00,0:00:01.00,,,a,b,c,,t"},
+		"PlayResX: x", "Timer: ,", ":", "::", "; ", "Dialogue: Marked=0,0:00:00.00,x,,,0,0,0,,t", "Dialogue: 0,9999999999999999999:00:00.00,0:00:01.00,,,0,0,0,,t", "Dialogue: 0,0:00:00.00,0:00:01.00,*,,0,0,0,,{", "Dialogue: 0,0:00:00.00,0:00:01.00,,,a,b,c,,t",
+		"Dialogue: 0,0:00:00.00,0:00:01.00,,,0,0,0,,{\\", "Dialogue: 0,0:00:00.00,0:00:01.00,,,0,0,0,,{\\an8", "Dialogue: 0,0:00:00.00,0:00:01.00,,,0,0,0,,\\", "Dialogue: 0,0:00:00.00,0:00:01.00,,,0,0,0,,\\N", "Dialogue: 0,0:00:00.00,0:00:01.00,,,0,0,0,,}{", "Dialogue: 0,0:00:00.00,0:00:01.00,,,0,0,0,,{}",
+		"Style: a,&H", "Style: a,&", "Style: a,-", "Style: a,0x", "Dialogue: 0,0:00:00", "Dialogue: 0,0:00:00.00,0:", "Dialogue: Marked=", "Dialogue: Marked"},
 }
 
 func mutateLines(t *rapid.T, format string, doc []byte, other []byte) []byte {
@@ -163,7 +229,23 @@ func mutateLines(t *rapid.T, format string, doc []byte, other []byte) []byte {
 			lines = []string{""}
 		}
 		k := rapid.IntRange(0, len(lines)-1).Draw(t, "line")
-		switch rapid.IntRange(0, 8).Draw(t, "op") {
+		switch rapid.IntRange(0, 10).Draw(t, "op") {
+		case 9: // cut the line at any byte, or drop its head
+			if len(lines[k]) > 1 {
+				cut := rapid.IntRange(1, len(lines[k])-1).Draw(t, "cutat")
+				if rapid.IntRange(0, 3).Draw(t, "head") == 0 {
+					lines[k] = lines[k][cut:]
+				} else {
+					lines[k] = lines[k][:cut]
+				}
+			}
+		case 10: // glue a hostile constant to the end or the start of the line
+			h := rapid.SampledFrom(hostileLines[format]).Draw(t, "hostile")
+			if rapid.Bool().Draw(t, "atend") {
+				lines[k] += h
+			} else {
+				lines[k] = h + lines[k]
+			}
 		case 0: // delete
 			lines = append(lines[:k], lines[k+1:]...)
 		case 1: // duplicate
@@ -468,6 +550,9 @@ func TestC08(t *testing.T) {
 		if c.Writer == "ttml" && rapid.Bool().Draw(rt, "hasindent") {
 			ind := rapid.SampledFrom([]string{"", "\t", "  ", "x"}).Draw(rt, "indent")
 			c.Indent = &ind
+		}
+		if g.hasParentCycle() {
+			ev.Label("cyclic-style-inheritance")
 		}
 		nilParts := g.Meta.Nil || g.NilStyles || g.NilRegions
 		for _, st := range g.Styles {
